@@ -302,6 +302,14 @@ func main() {
 				}
 				run.Add(common.App(ctor, common.Z(v), common.Z(by)), map[string]interface{}{"run": tag, "reader": "SubscribeToEvents", "kind": m[1], "key": m[2], "value": v, "updatedBy": m[4]}, true)
 				run.Hist("event:" + strings.ToLower(m[1]))
+			case strings.HasPrefix(l, "BREAD ") || strings.HasPrefix(l, "BTORN "):
+				torn := strings.HasPrefix(l, "BTORN ")
+				run.Add(common.App("CBytes", common.Bool(!torn)), map[string]interface{}{"run": tag, "line": l}, true)
+				if torn {
+					run.Hist("bytes:torn")
+				} else {
+					run.Hist("bytes:read")
+				}
 			case strings.HasPrefix(l, "NILREPLY "):
 				idx := run.Add("(CQuiet 0 0)", map[string]interface{}{"run": tag, "line": l}, false)
 				run.Violate(idx, "no request panics", clean("request_panicked:"+strings.TrimPrefix(l, "NILREPLY ")), tag+": "+l)
